@@ -343,6 +343,7 @@ def run(ck: Check):
     ck.run_gen("resvalues")
     # tie by translation: AgVerif.Gen.PyResValue.complexToFloat is the statement-by-statement translation
     # (gen/py2lean.py) of complexToFloat; Props/C27.lean proves gen_complexToFloat_eq / src_complexToFloat
+    ck.run_gen("py2lean_selftest")    # translator self-test: the subset, construct by construct, against CPython
     ck.run_gen("py2lean_c27")
     ck.prove(exes=["drv_C27"])
     drv = Driver("drv_C27")
